@@ -64,6 +64,7 @@ func (r *recorder) OnEntryBlocked(ctx *base.EntryContext, _ *base.BlockError) {
 	r.add(cbRec{"block", ctx.Entry(), ctx.Resource.Name(), ctx.Input.BatchCount, nil, 0})
 }
 func (r *recorder) OnCompleted(ctx *base.EntryContext) {
+	runtime.Gosched() // a statistic slot that takes a moment: widens the window in which a second Exit may arrive
 	r.add(cbRec{"complete", ctx.Entry(), ctx.Resource.Name(), ctx.Input.BatchCount, ctx.Err(), ctx.Rt()})
 }
 func (r *recorder) take() []cbRec {
@@ -527,7 +528,8 @@ func fmtCbs(cbs []cbRec) string {
 // ---- many goroutines, checked at quiescence ---------------------------------------------------
 
 type gop struct {
-	kind    int // 0 entry, 1 trace on newest held, 2 exit oldest held, 3 exit newest held (+err), 4 double exit of last exited
+	double  bool // exit this entry from two goroutines at once
+	kind    int  // 0 entry, 1 trace on newest held, 2 exit oldest held, 3 exit newest held (+err), 4 double exit of last exited
 	res     string
 	batch   uint32
 	inbound bool
@@ -554,7 +556,8 @@ func TestConcurrentQuiescence(t *testing.T) {
 			n := rapid.IntRange(1, 30).Draw(t, "len")
 			for i := 0; i < n; i++ {
 				o := gop{kind: rapid.SampledFrom([]int{0, 0, 0, 1, 2, 3, 4}).Draw(t, "kind"), res: rapid.SampledFrom([]string{"a", "b", "c"}).Draw(t, "res"),
-					batch: uint32(rapid.IntRange(1, 3).Draw(t, "batch")), inbound: rapid.Bool().Draw(t, "in"), yield: rapid.Bool().Draw(t, "yield")}
+					batch: uint32(rapid.IntRange(1, 3).Draw(t, "batch")), inbound: rapid.Bool().Draw(t, "in"), yield: rapid.Bool().Draw(t, "yield"),
+					double: rapid.IntRange(0, 3).Draw(t, "exitFromTwoGoroutines") == 0}
 				if o.res == "c" && !exP1 {
 					o.bad = rapid.IntRange(0, 3).Draw(t, "bad") == 0
 				}
@@ -593,6 +596,13 @@ func TestConcurrentQuiescence(t *testing.T) {
 					if withErr {
 						h.err = true
 						h.e.Exit(base.WithError(errs[0]))
+					} else if h.o.double { // the entry is exited by two goroutines at once: still one completion
+						var w sync.WaitGroup
+						w.Add(1)
+						go func() { defer w.Done(); h.e.Exit() }()
+						runtime.Gosched()
+						h.e.Exit()
+						w.Wait()
 					} else {
 						h.e.Exit()
 					}
